@@ -291,8 +291,8 @@ impl Prop for C07 {
                 Space { name: "wasm", size: 1200, exhaustive: false, chunk: 20, case_timeout_s: 120.0, what: "the same on the WASM runtime" },
             ],
             Tier::Thorough => vec![
-                Space { name: "vm", size: 40_000, exhaustive: false, chunk: 200, case_timeout_s: 60.0, what: "voice-bank programs x histories of 2-5 run/edit steps on the VM" },
-                Space { name: "wasm", size: 8_000, exhaustive: false, chunk: 40, case_timeout_s: 120.0, what: "the same on the WASM runtime" },
+                Space { name: "vm", size: 160_000, exhaustive: false, chunk: 200, case_timeout_s: 60.0, what: "voice-bank programs x histories of 2-5 run/edit steps on the VM" },
+                Space { name: "wasm", size: 32_000, exhaustive: false, chunk: 40, case_timeout_s: 120.0, what: "the same on the WASM runtime" },
             ],
         }
     }
